@@ -283,6 +283,8 @@ package raft
 //   spos[rd]        : number of entries already decoded from reader rd
 //   sIdx/sTerm/sTyp : fields of the k-th entry of that stream
 
+//@ ghost field Log.gprev uint64
+//@ ghost field Log.glast uint64
 //@ ghost field storage.gterm map[uint64]uint64
 //@ ghost field storage.gtyp map[uint64]uint64
 //@ ghost field storage.flushed uint64
@@ -291,11 +293,20 @@ package raft
 //@ ghost func sTerm(uint64, uint64) uint64
 //@ ghost func sTyp(uint64, uint64) uint64
 
-//@ pure LogWF(s *storage) bool = s.snaps != nil && s.log != nil && LogShape(s.log) && s.log.index == nil && LogPrev(s.log) <= s.snaps.index && s.snaps.index <= s.lastLogIndex && LogLast(s.log) == s.lastLogIndex && s.flushed <= s.lastLogIndex && (s.lastLogIndex > s.snaps.index ==> s.lastLogTerm == s.gterm[s.lastLogIndex])
+//@ pure LogWF(s *storage) bool = s.snaps != nil && s.log != nil && s.log.gprev <= s.snaps.index && s.snaps.index <= s.lastLogIndex && s.log.glast == s.lastLogIndex && s.flushed <= s.lastLogIndex && (s.lastLogIndex > s.snaps.index ==> s.lastLogTerm == s.gterm[s.lastLogIndex])
 //@ pure CfgWF(s *storage) bool = s.configs.Committed.Index <= s.configs.Latest.Index && s.configs.Latest.Index <= s.lastLogIndex
 //@ pure CfgEntry(s *storage, i uint64, t uint64) bool = i > s.snaps.index ==> i <= s.lastLogIndex && s.gtyp[i] == entryConfig && s.gterm[i] == t
 //@ pure CfgInLog(s *storage) bool = CfgEntry(s, s.configs.Latest.Index, s.configs.Latest.Term) && CfgEntry(s, s.configs.Committed.Index, s.configs.Committed.Term) && s.configs.Committed.Index <= s.configs.Latest.Index && forall(i, i > s.snaps.index && i <= s.lastLogIndex && i > s.configs.Committed.Index && i != s.configs.Latest.Index ==> s.gtyp[i] != entryConfig)
 //@ pure NodeInv(r *Raft) bool = RaftWF(r) && LogWF(r.storage) && CfgWF(r.storage) && r.snaps.index <= r.commitIndex && r.commitIndex <= r.lastLogIndex && r.resolver != nil && r.fsm != nil
+
+//@ view (*log.Log).PrevIndex
+//@   ensures result0 == l.gprev
+//@ view (*log.Log).LastIndex
+//@   ensures result0 == l.glast
+//@ view (*log.Log).ViewAt
+//@   requires [C03.view-bounds] lastIndex <= l.glast
+//@   ensures prevIndex <= lastIndex && prevIndex >= l.gprev ==> result0 != nil && result0.gprev == prevIndex && result0.glast == lastIndex
+//@   ensures prevIndex > lastIndex || prevIndex < l.gprev ==> result0 == nil
 
 //@ func (*storage).getEntry
 //@   trusted
@@ -303,10 +314,10 @@ package raft
 //@   modifies all(e)
 //@   maypanic OpError
 //@   ensures result0 == nil ==> e.index == index && e.term == s.gterm[index] && e.typ == s.gtyp[index]
-//@   ensures LogPrev(s.log) < index && index <= s.lastLogIndex ==> result0 == nil
+//@   ensures s.log.gprev < index && index <= s.lastLogIndex ==> result0 == nil
 
 //@ func (*storage).mustGetEntry
-//@   requires s.log != nil && LogPrev(s.log) < index && index <= s.lastLogIndex
+//@   requires s.log != nil && s.log.gprev < index && index <= s.lastLogIndex
 //@   modifies all(e)
 //@   maypanic OpError
 //@   ensures [C04.get] e.index == index && e.term == s.gterm[index] && e.typ == s.gtyp[index]
@@ -315,18 +326,18 @@ package raft
 //@   trusted
 //@   requires [C04.append-contiguous] e.index == s.lastLogIndex + 1
 //@   requires s.log != nil
-//@   modifies s.lastLogIndex, s.lastLogTerm, s.gterm, s.gtyp, all(s.log), log.segment.n, log.segment.size, log.segment.synced, log.segment.next, log.segment.prev, log.segment.prevIndex, log.segment.file, log.Log.gin, mmap.File.gdur, mmap.File.Data, elems(uint8)
+//@   modifies s.lastLogIndex, s.lastLogTerm, s.gterm, s.gtyp, s.log.glast
 //@   maypanic OpError
-//@   ensures s.lastLogIndex == e.index && s.lastLogTerm == e.term && LogLast(s.log) == e.index
+//@   ensures s.lastLogIndex == e.index && s.lastLogTerm == e.term && s.log.glast == e.index
 //@   ensures s.gterm[e.index] == e.term && s.gtyp[e.index] == e.typ
 //@   ensures forall(i, i != e.index ==> s.gterm[i] == old(s.gterm[i]) && s.gtyp[i] == old(s.gtyp[i]))
 
 //@ func (*storage).removeGTE
 //@   trusted
-//@   requires [C02.truncate-above-snapshot] s.log != nil && LogPrev(s.log) < index && index <= s.lastLogIndex
-//@   modifies s.lastLogIndex, s.lastLogTerm, s.flushed, all(s.log), log.segment.n, log.segment.size, log.segment.synced, log.segment.next, log.segment.prev, log.segment.prevIndex, log.segment.file, log.Log.gin, mmap.File.gdur, mmap.File.Data, elems(uint8)
+//@   requires [C02.truncate-above-snapshot] s.log != nil && s.log.gprev < index && index <= s.lastLogIndex
+//@   modifies s.lastLogIndex, s.lastLogTerm, s.flushed, s.log.glast
 //@   maypanic OpError
-//@   ensures s.lastLogIndex == index - 1 && s.lastLogTerm == prevTerm && LogLast(s.log) == index - 1 && s.flushed == index - 1
+//@   ensures s.lastLogIndex == index - 1 && s.lastLogTerm == prevTerm && s.log.glast == index - 1 && s.flushed == index - 1
 
 //@ func (*storage).commitLog
 //@   trusted
@@ -337,7 +348,7 @@ package raft
 
 //@ func (*Raft).applyCommitted
 //@   nilable ne
-//@   requires r.storage != nil && r.fsm != nil && r.log != nil && LogLast(r.log) == r.lastLogIndex
+//@   requires r.storage != nil && r.fsm != nil && r.log != nil && r.log.glast == r.lastLogIndex
 //@   requires [C03.apply-view] r.commitIndex <= r.lastLogIndex
 
 // ---------------------------------------------------------------------------
